@@ -126,7 +126,7 @@ def abs_proposal_fold(h):
     h.eq("even about 0", out, abs(-raw))
 
 
-OPS = ["set", "remove", "nn_on", "nn_off"]
+OPS = ["set", "remove", "nn_on", "nn_off", "set_refused"]
 
 
 @unit("C04", quick=[dict(n=1), dict(n=2), dict(n=3)], thorough=[dict(n=4)], max_paths=4000)
@@ -142,6 +142,11 @@ def limit_setter_sequences(h, n):
             w = h.real(f"w{k}", pos=True)
             p.set_boundaries(a, a + w)
             bounded, lim = True, (a, a + w)
+        elif op == "set_refused":
+            # limits the wrong way round: the library refuses the call (warning) -- whatever was in force stays in force
+            a = h.real(f"ra{k}")
+            w = h.real(f"rw{k}", pos=True)
+            p.set_boundaries(a + w, a)
         elif op == "remove":
             p.remove_boundaries()
             bounded, lim = False, None
